@@ -13,6 +13,7 @@ from ..world import World, run_world
 
 ID = 'C05'
 LEVEL = 'exploration'
+QUICK_SCALE = 5      # the quick tier was enlarged by this factor after MIN_OBS['quick'] was measured
 RULE = ("One real uploading client with 6 shared files; 1-5 scripted downloaders with seeded status (online / away / "
         "offline / unknown), friend and privilege flags, each queueing 1-3 files; upload slot limit 0..4 changed at "
         "run time; seeded order and timing of queue requests, honest completions (file connections held open 0.2-6 s "
@@ -39,7 +40,7 @@ STATUS = {'offline': 0, 'away': 1, 'online': 2}
 
 
 def cases(tier: str, seed: int) -> list[dict]:
-    n = 300 if tier == 'quick' else 15000
+    n = 1500 if tier == 'quick' else 15000
     return [{'seed': seed, 'n': i} for i in range(n)]
 
 
